@@ -986,6 +986,27 @@ def zero_is_not_unset(ctx: Ctx, rep: Report, rid: str = "R05.13") -> None:
         rep.ok("package", f"no truthiness test or `or`-default on {sorted(set(k.lstrip('_') for k in ZERO_IS_A_VALUE))}", nontrivial=False)
 
 
+def rejected_address_changes_nothing(ctx: Ctx, rep: Report, rid: str = "R05.17") -> None:
+    """"Rejected with an error, never approximated", one level up: an address whose new line is refused (mask over the
+    limit, bad octet) is what it was.  The readers of `AddressBase` / `AddressAg` build the Wildcard (the validation) before
+    they store type, group name or sequence number - stored first, a refused `a.line = ...` leaves the new kind over the
+    old network (`host 10.0.0.0` that still covers 10.0.0.0/24)."""
+    from .c08 import rejected_leaves_unchanged
+
+    targets = []
+    for q, attrs in (("AddressBase._line__host", ("_type", "_addrgroup")), ("AddressBase._line__prefix", ("_type", "_addrgroup")), ("AddressBase._line__wildcard", ("_type", "_addrgroup")), ("AddressAg.line.setter", ("_sequence",))):
+        f = ctx.prog.find_func(q)
+        if f is not None:
+            have = tuple(a for a in attrs if any(isinstance(x, ast.Attribute) and isinstance(x.ctx, ast.Store) and src(x.value) == "self" and x.attr == a for x in own_nodes(f.node)))
+            if have:
+                targets.append((q, have))
+    if not targets:
+        rep.rule(rid)
+        rep.note(f"{rid} the address readers were not recognised - not judged")
+        return
+    rejected_leaves_unchanged(ctx, rep, rid=rid, targets=tuple(targets), what="the new kind / group name / number over the old network: the address renders another set than it matches (`host 10.0.0.0` that still covers 10.0.0.0/24), and every containment and shadow answer follows the old network", inp="a = Address('10.0.0.0 0.0.0.255'); a.line = 'host 10.0.0.300'  # ValueError; a.line == 'host 10.0.0.0', a.ipnets() == [10.0.0.0/24]")
+
+
 def limit_error_not_swallowed(ctx: Ctx, rep: Report, rid: str = "R05.16") -> None:
     """"Rejected with an error, never approximated" holds for containers too: where a builder skips an item whose text it
     cannot read (`except ValueError: log; continue`) and the construction in the `try` can raise the limit error
@@ -1260,6 +1281,7 @@ def run(ctx: Ctx, rep: Report, tier: str) -> None:
     memo_not_handed_out(ctx, rep)
     drivers_hand_over_limit(ctx, rep)
     limit_error_not_swallowed(ctx, rep)
+    rejected_address_changes_nothing(ctx, rep)
     expansion_covers_members(ctx, rep)
     # R05.11 a factory hands the caller's limit (all its keyword arguments) to the object it builds, on every path
     from .c16 import dict_builders_pass_everything
